@@ -74,6 +74,8 @@ type gateCase struct {
 	// Prev: an earlier request gated by the same operator object (its outcome is ignored)
 	Prev    []string `json:"prev,omitempty"`
 	HasPrev bool     `json:"has_prev,omitempty"`
+	// SameObject: every non-nil position receives one and the same tensor object (a value wired to several inputs)
+	SameObject bool `json:"same_object,omitempty"`
 }
 
 func (g *gateCase) run() (v *hx.Violation) {
@@ -131,6 +133,18 @@ func (g *gateCase) run() (v *hx.Violation) {
 		dt, _ := ref.DTFromName(d)
 		in[i] = hx.ToG(ref.Distinct(dt, []int{2}))
 		snaps[i] = hx.Snapshot(in[i])
+	}
+	if g.SameObject {
+		var first tensor.Tensor
+		for i := range in {
+			if in[i] == nil {
+				continue
+			}
+			if first == nil {
+				first = in[i]
+			}
+			in[i] = first
+		}
 	}
 	n := len(in)
 	if g.Op == "Concat" { // variadic: min 1, no maximum
@@ -546,7 +560,7 @@ var nonRegisteredOnnxOps = []string{"Abs ", " Abs", "abs", "ABS", "", "Identity"
 
 func checkC15(c *hx.Checker) {
 	c.Rule = "names from opset13.GetOpNames() (must be exactly the registered set); per operator: every input count 0..max+2 (Concat 0..5) x dtype placement (the 14 ONNX element types plus Go-native int / uint tensors, which no gate may accept): full product of the dtypes over all positions when max<=2, else every homogeneous row and every single- and two-position deviation from every homogeneous allowed row x nil at every position; " +
-		"every homogeneous list additionally as a sub-slice of a longer array (spare capacity holding other tensors) and as the second request gated by one operator object after a longer / shorter / over-long / wrongly typed / empty first request; unknown names: 120 non-registered ONNX operator names, case/space variants, empty string; lookup independence: for 22 (operator, attribute set A, attribute set B) specs ALL interleavings of 2 lookups (20) and of 3 lookups (1680) of <Get, Init, Apply>, each Apply compared with its isolated result. " +
+		"every homogeneous list additionally with one and the same tensor object at every position, as a sub-slice of a longer array (spare capacity holding other tensors) and as the second request gated by one operator object after a longer / shorter / over-long / wrongly typed / empty first request; unknown names: 120 non-registered ONNX operator names, case/space variants, empty string; lookup independence: for 22 (operator, attribute set A, attribute set B) specs ALL interleavings of 2 lookups (20) and of 3 lookups (1680) of <Get, Init, Apply>, each Apply compared with its isolated result. " +
 		"states = distinct (operator, attribute-thread progress) configurations visited; transitions = Get/Init/Apply steps executed. non-trivial = every gate case with >= 1 input and every interleaving"
 	c.Assumptions = []string{"the allowed dtypes per position are the operator's own GetInputTypeConstraints (the property is about the gate enforcing its declaration before computing)",
 		"a nil at a *required* position is not an ONNX-expressible request: only 'no panic' is asserted there"}
@@ -668,6 +682,11 @@ func checkC15(c *hx.Checker) {
 		sp := g
 		sp.Spare = true
 		cases = append(cases, sp)
+		if len(g.DTypes) >= 2 {
+			so := g
+			so.SameObject = true
+			cases = append(cases, so)
+		}
 		op, err := opset13.GetOperator(g.Op)
 		if err != nil {
 			continue
@@ -699,6 +718,9 @@ func checkC15(c *hx.Checker) {
 		id := fmt.Sprintf("gate/%s/%v", g.Op, g.DTypes)
 		if g.Spare {
 			id += "/spare-capacity"
+		}
+		if g.SameObject {
+			id += "/same-object-at-every-position"
 		}
 		if g.HasPrev {
 			id += fmt.Sprintf("/after%v", g.Prev)
